@@ -186,6 +186,10 @@ ROUTES = {
     "rev_all": lambda sm, E, e, v, p: (lambda ld: [ld.component(w) for w in v])(sm.LocatedDifferential(e, p)),
     "diff_at_all": lambda sm, E, e, v, p: (lambda ld: [ld.component(w) for w in v])(sm.Differential(e).at(p)),
     "diff_at_early_all": lambda sm, E, e, v, p: (lambda ld: [ld.component(w) for w in v])(sm.Differential(e, compute_early=True).at(p)),
+    # as_expression() must hand back an expression
+    "asexp_fwd": lambda sm, E, e, v, p: isinstance(sm.Partial(e, v).as_expression(), sm.Expression),
+    "asexp_rev": lambda sm, E, e, v, p: isinstance(sm.Differential(e, compute_early=True).component(v).as_expression(), sm.Expression),
+    "asexp_deriv": lambda sm, E, e, v, p: isinstance(sm.Derivative(e).as_expression(), sm.Expression),
     # simplification
     "norm": lambda sm, E, e, v, p: e._normalize().at(p),
 }
